@@ -38,6 +38,8 @@ def tlen(t):
     while i < len(t):
         if t[i] == "%":
             i += 1
+            if t[i] == "c":
+                i += 1
         n += 1
         i += 1
     return n
@@ -50,6 +52,8 @@ def tsyms(t):
             i += 1
             if t[i] != "%":
                 n += 1
+            if t[i] == "c":
+                i += 1
         i += 1
     return n
 
@@ -163,10 +167,10 @@ def respline_jobs(tier):
 
 
 # ------------------------------------------------------------------ header lookup
-def hdr_job(name, fields, look, end="", line="GET / HTTP/1.1", lcb_fallback=False, timeout=None):
+def hdr_job(name, fields, look, end="", line="GET / HTTP/1.1", lcb_fallback=False, timeout=None, mode=1):
     total = tlen(line) + tlen(end) + sum(3 + tlen(n) + tlen(v) for n, v in fields)
     nsym = tsyms(line) + tsyms(end) + tsyms(look) + sum(tsyms(n) + tsyms(v) for n, v in fields)
-    defs = {"NF": len(fields), "T_LOOK": cstr(look), "LOOKLEN": tlen(look), "T_LINE": cstr(line), "T_END": cstr(end),
+    defs = {"MODE": mode, "NF": len(fields), "T_LOOK": cstr(look), "LOOKLEN": tlen(look), "T_LINE": cstr(line), "T_END": cstr(end),
             "TOTAL": total, "NSYM": nsym}
     for i, (n, v) in enumerate(fields):
         defs["T_N%d" % (i + 1)] = cstr(n)
@@ -175,7 +179,7 @@ def hdr_job(name, fields, look, end="", line="GET / HTTP/1.1", lcb_fallback=Fals
         defs["LCB_FALLBACK"] = None
     text = line + "".join("\r\n" + n + ":" + v for n, v in fields) + end
     ncrlf = text.count("\r\n")
-    j = {"name": "hdr-" + name, "src": "hdr.c", "defs": defs, "unwind": total + 4, "solver": SOLVER,
+    j = {"name": "hdr-%s-%s" % (name, {1: "first", 2: "next", 3: "count"}[mode]), "src": "hdr.c", "defs": defs, "unwind": total + 4, "solver": SOLVER,
          # the loops whose exit depends on symbolic bytes get their true bounds (symex cannot see that %v is never CR;
          # the unwinding assertions, decided by the solver under the class assumptions, confirm the bounds)
          "unwindset": ["http_hdr_val_get_count.0:%d" % (len(fields) + 2), "http_hdr_val_get_ex.0:%d" % (ncrlf + 2),
@@ -192,32 +196,17 @@ def hdr_job(name, fields, look, end="", line="GET / HTTP/1.1", lcb_fallback=Fals
 def hdr_jobs(tier):
     q = tier == "quick"
     out = []
-    A4 = "%a%a%a%a"
-    out.append(hdr_job("one-lit", [("Host", " %v%v")], "host"))
-    out.append(hdr_job("one-case", [(A4, "%w%v%v%w")], "host"))
-    out.append(hdr_job("one-symlook", [("%t%t", "%v")], "%t%t"))
-    out.append(hdr_job("one-empty", [("%t%t", "")], "%t%t"))
-    out.append(hdr_job("one-ows-only", [("%t%t", "%w%w")], "%t%t"))
-    out.append(hdr_job("one-end-crlf", [(A4, "%w%v")], "host", end="\r\n"))
-    out.append(hdr_job("two-dup", [(A4, "%w%v"), (A4, "%v%w")], "host"))
-    out.append(hdr_job("two-dup-end", [(A4, "%w%v"), (A4, "%v%w")], "HOST", end="\r\n"))
-    out.append(hdr_job("two-sym", [("%t%t", "%w%v"), ("%t%t", "%v%v")], "%t%t"))
-    out.append(hdr_job("two-lenmix", [("%t%t%t", "%v"), ("%t%t", "%w%v%w")], "%t%t"))
-    out.append(hdr_job("fold-mid", [("%t%t", " %v\r\n %v")], "%t%t"))
-    out.append(hdr_job("fold-mid2", [("%t", "%v\r\n\t%v"), ("%t", "%v")], "%t"))
-    out.append(hdr_job("fold-lead", [("%t%t", "\r\n %v"), ("%t%t", "%v")], "%t%t"))
-    out.append(hdr_job("fold-trail", [("%t%t", "%v\r\n "), ("%t%t", "%v")], "%t%t"))
-    out.append(hdr_job("fold-trail-end", [("%t%t", "%v\r\n%w")], "%t%t", end="\r\n"))
-    out.append(hdr_job("fold-only", [("%t%t", "\r\n%w")], "%t%t"))
-    out.append(hdr_job("three", [("%t%t", "%w%v"), ("%t%t", "%v"), ("%t%t", "%v%w")], "%t%t"))
-    out.append(hdr_job("three-lit", [("Host", " %v"), ("Content-Length", " %d"), ("hOST", "%v")], "host"))
-    out.append(hdr_job("cl-case", [("%a%a%a%a%a%a%a-%a%a%a%a%a%a", " %d")], "content-length"))
-    out.append(hdr_job("fallback", [("%t%t", "%w%v"), ("%t%t", "%v\r\n %v")], "%t%t", lcb_fallback=True, timeout=400))
-    if not q:
-        out.append(hdr_job("three-fold", [("%t%t", "%w%v\r\n %v"), ("%t%t%t", "%v%v%v"), ("%t%t", "\r\n\t%v%w")], "%t%t"))
-        out.append(hdr_job("three-end", [("%t%t%t", "%w%v%v%w"), ("%t%t%t", "%w%v%v%w"), ("%t%t%t", "%w%v%v%w")], "%t%t%t", end="\r\n"))
-        out.append(hdr_job("te-case", [("%a%a%a%a%a%a%a%a-%a%a%a%a%a%a%a%a", " %v%v")], "transfer-encoding"))
-        out.append(hdr_job("two-fold2", [("%t%t", "%v\r\n %v\r\n\t%v"), ("%t%t", "%v")], "%t%t"))
+    X = [("x1", [("%cHost", " %v")], "host", ""),
+         ("x2", [("Ho%cSt", " %va%v")], "host", ""),
+         ("x3", [("%cHos%cT", "%w%v")], "host", ""),
+         ("x4", [("%cHost", " %v"), ("hos%cT", "%v")], "host", ""),
+         ("x5", [("%tb", "%v"), ("a%t", "%v")], "a%t", ""),
+         ("x6", [("%t", " %v\r\n %v")], "%t", ""),
+         ("x7", [("%cHost", " %v"), ("%cA", "1"), ("hos%cT", "%v")], "host", ""),
+         ("x8", [("%t%t", "%v")], "%t%t", "")]
+    for n, f, l, e in X:
+        for mode in (1, 2, 3):
+            out.append(hdr_job(n, f, l, end=e, mode=mode))
     return out
 
 
